@@ -1862,7 +1862,6 @@ impl<'a, E: quiver_core::effects::Effect> Compiler<'a, E> {
         pattern::generate_pattern_code(
             &mut self.codegen,
             self.program,
-            &self.scopes,
             &binding_sets,
             fail_target,
         )?;
